@@ -41,7 +41,10 @@ func c04R1(c *Ctx) {
 			sites := g.callers[fn]
 			okAll := len(sites) > 0
 			for _, s := range sites {
-				if s.kind() != "go" || !strings.HasSuffix(c.fnName(s.Caller), "runningStep).startStage") {
+				// started with `go` by a function of the step goroutine's own call tree (the stage that starts the plugin)
+				if s.kind() != "go" || pkgPathOf(s.Caller) != pkgPlugin {
+					okAll = false
+				} else if _, onStepGoroutine := c.pluginStepTree()[s.Caller]; !onStepGoroutine {
 					okAll = false
 				}
 			}
@@ -63,7 +66,7 @@ func c04R2(c *Ctx) {
 		var bad []pevent
 		why := ""
 		for _, t := range ts.traces {
-			gi := hasEvent(t, "go", "(*plugin.runningStep).startStage$")
+			gi := hasEvent(t, "go", c.pluginLauncherName())
 			if gi < 0 {
 				continue
 			}
@@ -136,13 +139,13 @@ func c04R3(c *Ctx) {
 			switch op.Kind {
 			case "send":
 				if op.Ch.Field != nil {
-					fields = append(fields, op.Ch.Field.Name())
+					fields = append(fields, fieldName(op.Ch.Field))
 				}
 			case "select":
 				for _, st := range op.Sel.States {
 					if st.Dir == 1 { // types.SendOnly
 						if f := loadedField(st.Chan); f != nil {
-							fields = append(fields, f.Name())
+							fields = append(fields, fieldName(f))
 						}
 					}
 				}
@@ -256,13 +259,13 @@ func (c *Ctx) onlyViaStopGuards(fn *ssa.Function, ret ssa.Instruction, isCancel 
 		if !ok || !isStopIf(bo.X) {
 			continue
 		}
-		if bo.Op == token.EQL && isNilConst(bo.Y) {
+		isFalse := derivesFrom(bo.Y, func(x ssa.Value) bool { bv, isB := constBool(x); return isB && !bv })
+		// both spellings of "absent" and of "false": x == nil (true edge) / x != nil (false edge); x == false / x != false
+		switch {
+		case bo.Op == token.EQL && (isNilConst(bo.Y) || isFalse):
 			allowed[edge{b, 0}] = true
-		}
-		if bo.Op == token.NEQ {
-			if derivesFrom(bo.Y, func(x ssa.Value) bool { bv, isB := constBool(x); return isB && !bv }) {
-				allowed[edge{b, 1}] = true
-			}
+		case bo.Op == token.NEQ && (isNilConst(bo.Y) || isFalse):
+			allowed[edge{b, 1}] = true
 		}
 	}
 	seen := map[*ssa.BasicBlock]bool{}
@@ -306,7 +309,7 @@ func c04R5(c *Ctx) {
 	var bad []pevent
 	ioAfter := ""
 	for _, t := range ts.traces {
-		gi := hasEvent(t, "go", "(*plugin.runningStep).startStage$")
+		gi := hasEvent(t, "go", c.pluginLauncherName())
 		if gi < 0 {
 			continue
 		}
@@ -390,7 +393,7 @@ func c04R7(c *Ctx) {
 	n := 0
 	for _, fn := range c.inPkgs(c.runFns(), pkgPlugin, pkgForeach) {
 		for _, op := range c.chanOps(fn) {
-			if op.Kind != "send" || op.Ch.Field == nil || op.Ch.Field.Name() != "enabledInput" {
+			if op.Kind != "send" || op.Ch.Field == nil || fieldName(op.Ch.Field) != "enabledInput" {
 				continue
 			}
 			n++
@@ -439,4 +442,36 @@ func c04R7(c *Ctx) {
 		}
 	}
 	c.minCount(rule, "enable hand-overs", n, 2)
+}
+
+// pluginLauncherName: the name of the function that executes the plugin (contains the atp.Client.Execute call): the
+// goroutine body whose `go` event marks the launch in the explored traces.
+func (c *Ctx) pluginLauncherName() string {
+	name := "<no function executes the plugin>"
+	for _, fn := range c.inPkgs(c.runFns(), pkgPlugin) {
+		eachInstr(fn, func(r instrRef) {
+			cc := callCommon(r.I)
+			if cc != nil && cc.IsInvoke() && cc.Method.Name() == "Execute" && strings.HasSuffix(cc.Value.Type().String(), "atp.Client") {
+				name = c.fnName(fn)
+			}
+		})
+	}
+	return name
+}
+
+// pluginStepTree: the functions that run on the plugin step's own goroutine (reachable from the body that
+// RunnableStep.Start launches, without following further `go` statements).
+func (c *Ctx) pluginStepTree() map[*ssa.Function][]string {
+	var roots []*ssa.Function
+	for _, st := range c.ifaceMethodImpls(pkgStep, "RunnableStep", "Start") {
+		if pkgPathOf(st) != pkgPlugin {
+			continue
+		}
+		eachInstr(st, func(r instrRef) {
+			if goI, ok := r.I.(*ssa.Go); ok {
+				roots = append(roots, c.CG().Callees(goI)...)
+			}
+		})
+	}
+	return c.CG().reach(roots, false, false)
 }
